@@ -34,6 +34,7 @@ type v19Conn struct {
 	byOwner  atomic.Int32 // the next Close is the owner's (actor id + 1)
 	conc     bool
 	onUsable func() // runs a competing pool operation at the point where Get has unlocked and holds this connection
+	onClose  func() // the same for the point where Return closes the connections of a collected stale bucket
 }
 
 func (c *v19Conn) Usable() bool {
@@ -50,6 +51,10 @@ func (c *v19Conn) LastUseAt() time.Time {
 	return time.Now()
 }
 func (c *v19Conn) Close() error {
+	if f := c.onClose; f != nil {
+		c.onClose = nil
+		f()
+	}
 	c.w.mu.Lock()
 	c.w.closed = append(c.w.closed, c.id)
 	if c.conc {
@@ -343,4 +348,79 @@ func TestVerif_C19Conc(t *testing.T) {
 		directed++
 	}
 	out.Stat("directed-interleavings", directed)
+
+	// directed interleavings for Return: while Return closes the connections of a stale bucket it
+	// has just collected, a competing operation is started and given time to finish if it can
+	// (with the table lock held by Return it cannot, and simply runs afterwards)
+	directedRet := 0
+	for ci := 0; ci < n*2; ci++ {
+		r := vNewRand(uint64(1990000 + ci))
+		cfg := Config{MaxKeys: 1, MaxConnsPerKey: 1 + r.intn(2), MaxConnLifetimeSec: 3600, StaleKeyLifetimeSec: -1}
+		p := New(cfg)
+		w := &v19World{}
+		logEv := func(s string) { w.mu.Lock(); w.log = append(w.log, s); w.mu.Unlock() }
+		var panics atomic.Int32
+		var closedPool atomic.Bool
+		compet := r.intn(3)
+		competDone := make(chan struct{})
+		c0 := &v19Conn{w: w, id: 0, conc: true}
+		c0.onClose = func() {
+			go func() {
+				defer close(competDone)
+				defer func() {
+					if e := recover(); e != nil {
+						panics.Add(1)
+					}
+				}()
+				switch compet {
+				case 0:
+					p.CleanUp(ctx)
+				case 1:
+					p.Close()
+					closedPool.Store(true)
+					logEv("EShutdown")
+				case 2:
+					c2, _ := p.Get(ctx, "k1")
+					if c2 != nil {
+						logEv(fmt.Sprintf("EGot %s %s", cN(8), cN(c2.(*v19Conn).id)))
+						logEv(fmt.Sprintf("EUse %s %s", cN(8), cN(c2.(*v19Conn).id)))
+					}
+				}
+			}()
+			select {
+			case <-competDone:
+			case <-time.After(2 * time.Millisecond):
+			}
+		}
+		logEv(fmt.Sprintf("EGot %s %s", cN(1), cN(0)))
+		logEv(fmt.Sprintf("ERet %s %s", cN(1), cN(0)))
+		p.Return("k0", c0)
+		c1 := &v19Conn{w: w, id: 1, conc: true}
+		logEv(fmt.Sprintf("EGot %s %s", cN(1), cN(1)))
+		logEv(fmt.Sprintf("ERet %s %s", cN(1), cN(1)))
+		func() {
+			defer func() {
+				if e := recover(); e != nil {
+					panics.Add(1)
+				}
+			}()
+			p.Return("k1", c1)
+		}()
+		stuck := false
+		select {
+		case <-competDone:
+		case <-time.After(5 * time.Second):
+			stuck = true
+		}
+		if !closedPool.Load() && !stuck {
+			p.Close()
+		}
+		time.Sleep(500 * time.Microsecond)
+		w.mu.Lock()
+		lg := cList(w.log)
+		w.mu.Unlock()
+		out.Case(fmt.Sprintf("CConc %s %s %s", lg, cN(int(panics.Load())), cBool(stuck)))
+		directedRet++
+	}
+	out.Stat("directed-interleavings-return", directedRet)
 }
